@@ -2,6 +2,7 @@
 
 import asyncio
 from collections.abc import Callable, Coroutine
+import contextlib
 from dataclasses import dataclass, field
 import json
 import logging
@@ -82,7 +83,8 @@ class Persistence:
         async def cancel_save() -> None:
             """Cancel the save task."""
             task.cancel()
-            await task
+            with contextlib.suppress(asyncio.CancelledError):
+                await task
 
         self._cancel_save = cancel_save
 
